@@ -350,6 +350,7 @@ typedef struct
     float		    b_s, b_b;
     pixman_fixed_48_16_t    left_x;
     pixman_fixed_48_16_t    right_x;
+    pixman_fixed_48_16_t    base_x;
 
     pixman_gradient_stop_t *stops;
     int                     num_stops;
